@@ -189,7 +189,8 @@ def run(ctx):
     ctx.log("TLC enumerated %d schedules to replay" % len(scen))
 
     # ---------------------------------------------------------------- build
-    extra = ctx.overlaygen(sum((["-gate", g] for g in GATES), []))
+    # + controlled clock in Job (time.Now() -> verifNow()): all jobs of a cycle share one wall-clock second
+    extra = ctx.overlaygen(["-clock", "internal/compaction/job.go"] + sum((["-gate", g] for g in GATES), []))
     if ctx.missing_gates:
         raise InfraError("LocalBackend anchors for the C09 gates not found: %s (internal/storage/local.go was "
                          "restructured; adapt GATES in checks/c09.py)" % ctx.missing_gates)
